@@ -120,9 +120,13 @@ def make_pre(zy, spec: dict, pre: str):
     r = zy.run({**spec, "env": {}, "hooks": None})
     if pre == "err":
         (ctl / "fail").unlink()
-    want = "ValueError" if pre == "err" else "ok"
-    if r["hang"] or (r["report"] or {}).get("outcome") != want:
-        raise core.Infra(f"could not create the pre-existing {pre} result: {r}")
+    # what counts is the result file the set-up run leaves behind, not how the failure is reported to the caller (the
+    # debug worker re-raises the ValueError of the body, asynchronous workers report a RuntimeError with the recorded error)
+    outcome = (r["report"] or {}).get("outcome")
+    state = jp._file_state(Path(spec["cache"]) / jp.checksum(spec) / "_result.pklz", "result")
+    good = (outcome != "ok" and state == "err") if pre == "err" else (outcome == "ok" and state == "ok")
+    if r["hang"] or not good:
+        raise core.Infra(f"could not create the pre-existing {pre} result (result file: {state}): {r}")
     if pre == "torn":
         f = Path(spec["cache"]) / jp.checksum(spec) / "_result.pklz"
         data = f.read_bytes()
